@@ -1,0 +1,255 @@
+//go:build verif
+
+package bec
+
+// Hooks for the external verification harness.  This file only exists for the
+// compiler under the build tag "verif"; it adds exported thin wrappers around
+// unexported items and changes no behaviour of the package.
+
+import (
+	"fmt"
+	"math/big"
+)
+
+// VerifFV is the raw word vector of a fieldVal (10 words, base 2^26).
+type VerifFV = [10]uint32
+
+// verifJunk is what an output-only receiver holds before the call, so that a
+// method which wrongly depends on the receiver's old contents is observable.
+var verifJunk = VerifFV{0xdeadbeef, 0xfeedface, 0x01234567, 0x89abcdef, 0xffffffff,
+	0x0badf00d, 0xcafebabe, 0x76543210, 0xfedcba98, 0xa5a5a5a5}
+
+// VerifFieldOp runs one mutating fieldVal method on raw word vectors and
+// returns the receiver afterwards.  The suffixes select an aliasing form:
+// ".r1" the receiver is the same pointer as the first argument, ".r2" as the
+// second argument, ".r12" as both.  ok is false for an unknown op.
+func VerifFieldOp(op string, a, b VerifFV, k uint) (res VerifFV, ok bool) {
+	fa, fb := &fieldVal{n: a}, &fieldVal{n: b}
+	out := &fieldVal{n: verifJunk}
+	switch op {
+	case "zero":
+		out.Zero()
+	case "set":
+		out.Set(fa)
+	case "set.r1":
+		out = fa.Set(fa)
+	case "setint":
+		out.SetInt(k)
+	case "normalise":
+		out = fa.Normalise()
+	case "add":
+		out = fa.Add(fb)
+	case "add.r1":
+		out = fa.Add(fa)
+	case "add2":
+		out.Add2(fa, fb)
+	case "add2.r1":
+		out = fa.Add2(fa, fb)
+	case "add2.r2":
+		out = fb.Add2(fa, fb)
+	case "add2.r12":
+		out = fa.Add2(fa, fa)
+	case "addint":
+		out = fa.AddInt(k)
+	case "negate":
+		out = fa.Negate(uint32(k))
+	case "negateval":
+		out.NegateVal(fa, uint32(k))
+	case "mulint":
+		out = fa.MulInt(k)
+	case "mul":
+		out = fa.Mul(fb)
+	case "mul.r1":
+		out = fa.Mul(fa)
+	case "mul2":
+		out.Mul2(fa, fb)
+	case "mul2.r1":
+		out = fa.Mul2(fa, fb)
+	case "mul2.r2":
+		out = fb.Mul2(fa, fb)
+	case "mul2.r12":
+		out = fa.Mul2(fa, fa)
+	case "square":
+		out = fa.Square()
+	case "squareval":
+		out.SquareVal(fa)
+	case "inverse":
+		out = fa.Inverse()
+	case "sqrtval":
+		out.SqrtVal(fa)
+	default:
+		return res, false
+	}
+	return out.n, true
+}
+
+// VerifFieldPred runs one fieldVal predicate: "iszero", "isodd", "equals".
+func VerifFieldPred(op string, a, b VerifFV) (res, ok bool) {
+	fa, fb := &fieldVal{n: a}, &fieldVal{n: b}
+	switch op {
+	case "iszero":
+		return fa.IsZero(), true
+	case "isodd":
+		return fa.IsOdd(), true
+	case "equals":
+		return fa.Equals(fb), true
+	case "equals.r1":
+		return fa.Equals(fa), true
+	}
+	return false, false
+}
+
+// VerifFieldSetBytes is new(fieldVal).SetBytes(b) on a junk-filled receiver.
+func VerifFieldSetBytes(b *[32]byte) VerifFV {
+	f := &fieldVal{n: verifJunk}
+	return f.SetBytes(b).n
+}
+
+// VerifFieldSetByteSlice is SetByteSlice(b) on a junk-filled receiver.
+func VerifFieldSetByteSlice(b []byte) VerifFV {
+	f := &fieldVal{n: verifJunk}
+	return f.SetByteSlice(b).n
+}
+
+// VerifFieldPutBytes is PutBytes into a junk-filled array.
+func VerifFieldPutBytes(a VerifFV) [32]byte {
+	var b [32]byte
+	for i := range b {
+		b[i] = 0xa5
+	}
+	(&fieldVal{n: a}).PutBytes(&b)
+	return b
+}
+
+// VerifFieldBytes is Bytes().
+func VerifFieldBytes(a VerifFV) [32]byte {
+	return *(&fieldVal{n: a}).Bytes()
+}
+
+// VerifJacArity is the number of *fieldVal parameters of the functions VerifJac
+// can run.
+var VerifJacArity = map[string]int{
+	"addJacobian":              9,
+	"addZ1AndZ2EqualsOne":      8,
+	"addZ1EqualsZ2":            8,
+	"addZ2EqualsOne":           8,
+	"addGeneric":               9,
+	"doubleJacobian":           6,
+	"doubleZ1EqualsOne":        5,
+	"doubleGeneric":            6,
+	"fieldJacobianToBigAffine": 3,
+}
+
+// VerifJac runs one of the Jacobian point functions on raw word vectors.
+// alias[i] = j (j <= i) makes parameter i the SAME pointer as parameter j (its
+// own input value is then ignored); alias == nil means all distinct.  All
+// parameters are returned as they are after the call.  For
+// fieldJacobianToBigAffine the two big.Int results follow as extra.
+func VerifJac(fn string, in []VerifFV, alias []int) (out []VerifFV, extra []*big.Int, err error) {
+	n, known := VerifJacArity[fn]
+	if !known {
+		return nil, nil, fmt.Errorf("unknown function %q", fn)
+	}
+	if len(in) != n || (alias != nil && len(alias) != n) {
+		return nil, nil, fmt.Errorf("%s takes %d field values", fn, n)
+	}
+	p := make([]*fieldVal, n)
+	for i := range p {
+		j := i
+		if alias != nil {
+			j = alias[i]
+		}
+		switch {
+		case j == i:
+			p[i] = &fieldVal{n: in[i]}
+		case j >= 0 && j < i && alias[j] == j:
+			p[i] = p[j]
+		default:
+			return nil, nil, fmt.Errorf("bad alias entry %d -> %d", i, j)
+		}
+	}
+	curve := S256()
+	switch fn {
+	case "addJacobian":
+		curve.addJacobian(p[0], p[1], p[2], p[3], p[4], p[5], p[6], p[7], p[8])
+	case "addZ1AndZ2EqualsOne":
+		curve.addZ1AndZ2EqualsOne(p[0], p[1], p[2], p[3], p[4], p[5], p[6], p[7])
+	case "addZ1EqualsZ2":
+		curve.addZ1EqualsZ2(p[0], p[1], p[2], p[3], p[4], p[5], p[6], p[7])
+	case "addZ2EqualsOne":
+		curve.addZ2EqualsOne(p[0], p[1], p[2], p[3], p[4], p[5], p[6], p[7])
+	case "addGeneric":
+		curve.addGeneric(p[0], p[1], p[2], p[3], p[4], p[5], p[6], p[7], p[8])
+	case "doubleJacobian":
+		curve.doubleJacobian(p[0], p[1], p[2], p[3], p[4], p[5])
+	case "doubleZ1EqualsOne":
+		curve.doubleZ1EqualsOne(p[0], p[1], p[2], p[3], p[4])
+	case "doubleGeneric":
+		curve.doubleGeneric(p[0], p[1], p[2], p[3], p[4], p[5])
+	case "fieldJacobianToBigAffine":
+		x, y := curve.fieldJacobianToBigAffine(p[0], p[1], p[2])
+		extra = []*big.Int{x, y}
+	}
+	out = make([]VerifFV, n)
+	for i := range p {
+		out[i] = p[i].n
+	}
+	return out, extra, nil
+}
+
+// VerifConsts returns fieldOne, curve.fieldB and curve.beta as word vectors.
+func VerifConsts() (one, b, beta VerifFV) {
+	c := S256()
+	return fieldOne.n, c.fieldB.n, c.beta.n
+}
+
+// VerifBytePoint returns the pre-computed table entry bytePoints[i][b].
+func VerifBytePoint(i, b int) [3]VerifFV {
+	p := &S256().bytePoints[i][b]
+	return [3]VerifFV{p[0].n, p[1].n, p[2].n}
+}
+
+// VerifDecompressPoint is decompressPoint on the secp256k1 curve.
+func VerifDecompressPoint(x *big.Int, ybit bool) (*big.Int, error) {
+	return decompressPoint(S256(), x, ybit)
+}
+
+// VerifSplitK is curve.splitK.
+func VerifSplitK(k []byte) ([]byte, []byte, int, int) {
+	return S256().splitK(k)
+}
+
+// VerifModuloReduce is curve.moduloReduce.
+func VerifModuloReduce(k []byte) []byte {
+	return S256().moduloReduce(k)
+}
+
+// VerifNAF is NAF (already exported; listed for completeness of the hook set).
+func VerifNAF(k []byte) ([]byte, []byte) {
+	return NAF(k)
+}
+
+// VerifNonceRFC6979 is nonceRFC6979.
+func VerifNonceRFC6979(d *big.Int, hash []byte) *big.Int {
+	return nonceRFC6979(d, hash)
+}
+
+// VerifHashToInt is hashToInt on the secp256k1 curve.
+func VerifHashToInt(hash []byte) *big.Int {
+	return hashToInt(hash, S256())
+}
+
+// VerifRecoverKeyFromSignature is recoverKeyFromSignature on the secp256k1 curve.
+func VerifRecoverKeyFromSignature(sig *Signature, msg []byte, iter int, doChecks bool) (*PublicKey, error) {
+	return recoverKeyFromSignature(S256(), sig, msg, iter, doChecks)
+}
+
+// VerifAddPKCSPadding is addPKCSPadding.
+func VerifAddPKCSPadding(src []byte) []byte {
+	return addPKCSPadding(src)
+}
+
+// VerifRemovePKCSPadding is removePKCSPadding.
+func VerifRemovePKCSPadding(src []byte) ([]byte, error) {
+	return removePKCSPadding(src)
+}
